@@ -198,7 +198,9 @@ impl Pca<f64> {
         &self,
         prediction: ArrayBase<ndarray::OwnedRepr<f64>, ndarray::Dim<[usize; 2]>>,
     ) -> ArrayBase<ndarray::OwnedRepr<f64>, ndarray::Dim<[usize; 2]>> {
-        prediction.dot(&self.embedding) + &self.mean
+        // the rows of the embedding are unit vectors unless whitening rescaled them: undo that scale
+        let scale = self.embedding.map_axis(Axis(1), |row| row.dot(&row));
+        (prediction / &scale).dot(&self.embedding) + &self.mean
     }
 }
 
